@@ -899,3 +899,88 @@ Proof.
   destruct r as [gr o]. simpl in *. destruct Hr as [Hrel' [-> | ->]]; simpl; [done|]. intros [= <-]. split; [done|].
   rewrite (bb_rel_remove_eq _ _ _ Hrel'). by destruct C.
 Qed.
+(* ================================================================ a rejected add_subcircuit leaves no trace *)
+Lemma connect_bb_rel c g io us ws :
+  bb_rel c g io → (∀ m, m ∉ io → m ∈ ws → list_to_set us ⊆ (list_to_set io : gset string)) →
+  bb_rel c (connect_g g us ws).1 io ∧ ((connect_g g us ws).2 = Done ∨ (connect_g g us ws).2 = Fail ValueError).
+Proof.
+  intros [Hf Hr] Hside. destruct (connect_g g us ws).2 eqn:E.
+  - split; [|by left]. split; [done|]. intros m Hm. destruct (Hr m Hm) as (Ht & Ho & Hfi).
+    unfold fanin. rewrite (connect_g_lookup _ _ _ _ E). unfold fanin in Hfi.
+    destruct (g !! m) as [i|]; simpl in *; [|done]. split; [done|]. split; [done|]. rewrite <- Hfi.
+    destruct (decide (m ∈ ws)) as [Hw|]; [|set_solver]. specialize (Hside m Hm Hw). set_solver.
+  - apply connect_g_fail in E as [-> ->]. split; [done|by right].
+Qed.
+
+Lemma foldl_inv_in {A B} (P : A → Prop) (f : A → B → A) l a : P a → (∀ a b, b ∈ l → P a → P (f a b)) → P (foldl f a l).
+Proof.
+  intros Ha Hf. revert a Ha. induction l as [|b l IH]; intros a Ha; simpl; [done|].
+  apply IH; [intros a' b' Hb'; apply Hf; set_solver|]. apply Hf; [set_solver|done].
+Qed.
+
+Lemma add_subcircuit_reject strip C SC name conns e :
+  closed (c_g C) → (add_subcircuit_gen strip C SC name conns).2 = Fail e →
+  e = ValueError ∧ (add_subcircuit_gen strip C SC name conns).1 = C.
+Proof.
+  intros Hc. unfold add_subcircuit_gen.
+  destruct (existsb _ (elements (dom (c_bbs SC)))); [simpl; by intros [= <-]|].
+  destruct (existsb _ (elements (dom (c_g SC)))) eqn:Eov; [simpl; by intros [= <-]|].
+  destruct (existsb _ conns) eqn:Ekeys; [simpl; by intros [= <-]|]. cbv zeta.
+  set (io := pre name <$> elements (dom (c_g SC))).
+  assert (Hio : ∀ n, n ∈ dom (c_g SC) → pre name n ∈ io).
+  { intros n Hn. unfold io. apply elem_of_list_fmap. exists n. split; [done|]. by apply elem_of_elements. }
+  assert (Hdisj : ∀ m, m ∈ io → m ∉ dom (c_g C)).
+  { intros m (n & -> & Hn%elem_of_elements)%elem_of_list_fmap.
+    assert (Hf : negb (existsb (λ n, bool_decide (pre name n ∈ dom (c_g C))) (elements (dom (c_g SC)))) = true) by (by rewrite Eov).
+    pose proof (negb_existsb_false _ _ Hf n) as H. simpl in H. specialize (H ltac:(by apply elem_of_elements)). by apply bool_decide_eq_false in H. }
+  set (g0 := update_g (c_g C) (rename_g (pre name) (c_g SC))).
+  assert (H0 : ∀ m, m ∉ io → g0 !! m = c_g C !! m).
+  { intros m Hm. unfold g0, update_g. rewrite lookup_union_with.
+    assert (rename_g (pre name) (c_g SC) !! m = None) as ->.
+    { unfold rename_g. apply lookup_kmap_None; [apply _|]. intros n ->. rewrite lookup_fmap.
+      destruct (c_g SC !! n) eqn:E; [|done]. exfalso. apply Hm, Hio. apply elem_of_dom. eauto. }
+    by destruct (c_g C !! m). }
+  set (g1 := if strip then set_fold _ g0 (inputs (c_g SC)) else g0).
+  assert (H1 : ∀ m, m ∉ io → g1 !! m = c_g C !! m).
+  { unfold g1. destruct strip; [|done]. unfold set_fold. simpl.
+    apply (foldr_inv (λ g, ∀ m, m ∉ io → g !! m = c_g C !! m)); [done|].
+    intros x g Hx%elem_of_elements Hg m Hm. rewrite lookup_alter_ne; [by apply Hg|]. intros <-. apply Hm, Hio.
+    apply elem_of_inputs in Hx as (i & Hi & _). apply elem_of_dom. eauto. }
+  set (g2 := if strip then set_fold _ g1 (outputs (c_g SC)) else g1).
+  assert (H2 : ∀ m, m ∉ io → g2 !! m = c_g C !! m).
+  { unfold g2. destruct strip; [|done]. unfold set_fold. simpl.
+    apply (foldr_inv (λ g, ∀ m, m ∉ io → g !! m = c_g C !! m)); [done|].
+    intros x g Hx%elem_of_elements Hg m Hm. rewrite lookup_alter_ne; [by apply Hg|]. intros <-. apply Hm, Hio.
+    apply elem_of_outputs in Hx as (i & Hi & _). apply elem_of_dom. eauto. }
+  assert (Hrel : bb_rel (c_g C) g2 io).
+  { split; [done|]. intros m Hm. unfold fanin. rewrite (H2 m Hm). split; [done|]. split; [done|].
+    apply set_eq. intros f. rewrite elem_of_difference, elem_of_list_to_set. split; [tauto|]. intros Hf. split; [done|].
+    intros Hfio. apply (Hdisj f Hfio). destruct (c_g C !! m) as [i|] eqn:E; simpl in Hf; [eauto|set_solver]. }
+  set (r := foldl _ (g2, Done) conns).
+  assert (Hr : bb_rel (c_g C) r.1 io ∧ (r.2 = Done ∨ r.2 = Fail ValueError)).
+  { apply (foldl_inv_in (λ st : circuit * outcome, bb_rel (c_g C) st.1 io ∧ (st.2 = Done ∨ st.2 = Fail ValueError))); [split; [done|by left]|].
+    intros [g o] [k vs] Hin [Hg Ho]. simpl in *. destruct o; [|done].
+    destruct (bool_decide (k ∈ inputs (c_g SC))) eqn:Ek.
+    - apply connect_bb_rel; [done|]. intros m Hm ->%elem_of_list_singleton. exfalso. apply Hm, Hio.
+      apply bool_decide_eq_true in Ek. apply elem_of_inputs in Ek as (i & Hi & _). apply elem_of_dom. eauto.
+    - apply connect_bb_rel; [done|]. intros m _ _ x. rewrite !elem_of_list_to_set. intros ->%elem_of_list_singleton. apply Hio.
+      assert (Hf : negb (existsb (λ kv : string * list string, negb (bool_decide (kv.1 ∈ inputs (c_g SC))) && negb (bool_decide (kv.1 ∈ outputs (c_g SC)))) conns) = true) by (by rewrite Ekeys).
+      pose proof (negb_existsb_false _ _ Hf (k, vs) Hin) as Hk. simpl in Hk. rewrite Ek in Hk. simpl in Hk.
+      apply negb_false_iff, bool_decide_eq_true in Hk. apply elem_of_outputs in Hk as (i & Hi & _). apply elem_of_dom. eauto. }
+  destruct r as [gr o]. simpl in *. destruct Hr as [Hrel' [-> | ->]]; simpl; [done|]. intros [= <-]. split; [done|].
+  fold io. rewrite (bb_rel_remove_eq _ _ _ Hrel'). by destruct C.
+Qed.
+
+(* every operation: a rejected call changes no wire and not the registry, and raises ValueError (set_output: KeyError) *)
+Definition orders_ok (o : op) : Prop :=
+  match o with OAddBlackbox d _ ins outs _ => list_to_set ins = bb_in d ∧ list_to_set outs = bb_out d | _ => True end.
+Lemma step_reject_all C o e : closed (c_g C) → orders_ok o → (step C o).2 = Fail e →
+  edges (c_g (step C o).1) = edges (c_g C) ∧ c_bbs (step C o).1 = c_bbs C ∧
+  e = match o with OSetOutput _ _ => KeyError | _ => ValueError end.
+Proof.
+  intros Hc Hord. destruct o; try (by apply step_reject_basic).
+  - destruct Hord as [Hi Ho]. intros Hf. destruct (add_blackbox_reject C d inst ins outs conns e Hc Hi Ho Hf) as [-> HC].
+    simpl. by rewrite HC.
+  - intros Hf. destruct (add_subcircuit_reject true C SC name conns e Hc Hf) as [-> HC]. simpl. unfold add_subcircuit. by rewrite HC.
+  - simpl. unfold fill_blackbox. repeat case_match; simpl; intros [=]; done.
+Qed.
